@@ -33,3 +33,53 @@ From PyDBML Require Import GenFns GenFnTie.
 Theorem C02_quote_string_regenerated_from_source : forall t, gen_quote_string t = quote_string t.
 Proof. exact gen_quote_string_is_model. Qed.
 Print Assumptions C02_quote_string_regenerated_from_source.
+
+(* the Note { ... } block of tables, projects (and of Note.dbml) is the one render_note writes (regenerated from its source text) *)
+From PyDBML Require Import RenderDBML.
+Theorem C02_note_block_regenerated_from_source : forall t, gen_render_note t = dbml_note t.
+Proof. exact gen_render_note_is_model. Qed.
+Print Assumptions C02_note_block_regenerated_from_source.
+
+(* ---- writer side of the round trip (proofs/DbmlText.v): what exactly the DBML renderer emits, for every heap ---- *)
+From PyDBML Require Import Heap Classes DdlText DbmlText.
+Theorem C02_column_line_text :
+  forall rd h cid c s, dbml_column rd h cid c = Ok s ->
+  exists inl dflt nt ty,
+    (dflt = [] <-> defval_truthy (c_default c) = false) /\ note_text h (c_note c) = Ok nt /\
+    (match c_type c with
+     | CTEnum e => exists en, h_enum h e = Some en /\ ty = full_name_for_sql (e_schema en) (e_name en)
+     | CTStr t => ty = t | CTNone => False end) /\
+    exists props,
+    s = with_comment_dbml (c_comment c)
+          (q2 (fstr (c_name c)) ++ cSP :: ty
+           ++ settings (inl ++ flag (c_pk c) (s2l "pk") ++ flag (c_autoinc c) (s2l "increment") ++ dflt
+                        ++ flag (c_unique c) (s2l "unique") ++ flag (c_not_null c) (s2l "not null")
+                        ++ (if is_nil nt then [] else [note_option_to_dbml nt]) ++ props)) /\
+    (props = [] \/ props = props_items (c_properties c)).
+Proof. exact dbml_column_text. Qed.
+Print Assumptions C02_column_line_text.
+
+Theorem C02_enum_block_lists_items_in_order :
+  forall h e s, dbml_enum h e = Ok s ->
+  exists items rows, e_items e = Some items /\
+    Forall2 (fun i row => exists it, h_enumitem h i = Some it /\ dbml_enum_item h it = Ok row) items rows /\
+    s = with_comment_dbml (e_comment e)
+          (s2l "Enum " ++ full_name_for_sql (e_schema e) (e_name e) ++ s2l " {" ++ cLF
+           :: textwrap_indent (join [cLF] rows) (s2l "    ") ++ cLF :: s2l "}").
+Proof. exact dbml_enum_text. Qed.
+Print Assumptions C02_enum_block_lists_items_in_order.
+
+Theorem C02_table_block_lists_columns_and_indexes_in_order :
+  forall rd h t s, dbml_table rd h t = Ok s ->
+  exists rows props notes idx,
+    Forall2 (fun c row => exists cc, h_column h c = Some cc /\ dbml_column rd h c cc = Ok row) (t_columns t) rows /\
+    (t_indexes t = [] -> idx = []) /\
+    (t_indexes t <> [] -> exists irows, Forall2 (fun i row => exists ix, h_index h i = Some ix /\ dbml_index h ix = Ok row) (t_indexes t) irows /\
+        idx = cLF :: s2l "    indexes {" ++ cLF :: textwrap_indent (join [cLF] irows) (s2l "        ") ++ cLF :: s2l "    }" ++ [cLF]) /\
+    s = with_comment_dbml (t_comment t)
+          ((s2l "Table " ++ full_name_for_dbml (t_schema t) (t_name t) ++ [cSP]
+            ++ (if truthy (t_alias t) then s2l "as " ++ q2 (fstr (t_alias t)) ++ [cSP] else [])
+            ++ (if truthy (t_header_color t) then s2l "[headercolor: " ++ fstr (t_header_color t) ++ s2l "] " else []))
+           ++ s2l "{" ++ cLF :: textwrap_indent (join [cLF] rows) (s2l "    ") ++ cLF :: props ++ notes ++ idx ++ s2l "}").
+Proof. exact dbml_table_text. Qed.
+Print Assumptions C02_table_block_lists_columns_and_indexes_in_order.
